@@ -231,7 +231,8 @@ def report(pid, tier, seed, P, mod, gens, meta, errors, t_start, args, jobs):
     # bounded stand-in, always on: the property's native harness searches for a failing input on the real code even when every
     # obligation is discharged (clauses that no contract covers yet are decided only up to the harness's bound; never counted as proved)
     bounded = dict(ran=False, found=False)
-    if not violations and not undecided and rc == 0 and os.path.exists(os.path.join(VERIF, "replay", f"{pid}.py")) and not args.only and not os.environ.get("PYVC_NO_BOUNDED"):
+    # (also when obligations stayed undecided and their own witness search found nothing: the general search may still find a failing input)
+    if not violations and rc == 0 and os.path.exists(os.path.join(VERIF, "replay", f"{pid}.py")) and not args.only and not os.environ.get("PYVC_NO_BOUNDED"):
         pseudo = dict(task="bounded-search", func="<whole property>", name="bounded-native-search", line=0, verdict="none", model=None,
                       expect="unsat", decisions=[], backend="-", stage="-", kind="bounded", note="")
         t_b = time.time()
@@ -244,7 +245,8 @@ def report(pid, tier, seed, P, mod, gens, meta, errors, t_start, args, jobs):
                 if kf.get("witness_tag") == tag and re.fullmatch(kf["obligation"], obligation_key(pseudo)):
                     known_hits.append((kf, dict(pseudo, verdict="known", backend="native", stage="bounded")))
         if bounded["found"]:
-            engine_witness.append((dict(pseudo, note="all obligations were discharged: the failing input exercises a clause no contract covers"), r_b["replay"]))
+            engine_witness.append((dict(pseudo, note=("all obligations were discharged: the failing input exercises a clause no contract covers" if not undecided else
+                                                       f"{len(undecided)} obligation(s) were left undecided by the solvers")), r_b["replay"]))
     # a known finding that no longer fails is reported (informational): the entry should become 'fixed'
     printed = set()
     for kf, m in known_hits:
